@@ -3,6 +3,9 @@ import PfVerif.Proofs.C14Sum
 import PfVerif.Proofs.C14Riv
 import PfVerif.Proofs.C14Fuel
 import PfVerif.Proofs.C14Down
+import PfVerif.Proofs.C14Win
+import PfVerif.Proofs.C14Mono
+import PfVerif.Proofs.C03Topo
 /-! # C14 — along-network operators equal their flow-path definitions
 
 Every theorem quantifies over all networks `ds`, all downstream-first orders `seq` (`Topo`, the
@@ -296,6 +299,22 @@ theorem cellDist_exact (ncol : Nat) (xres yres : Int) (i j : Nat)
   simp only [cellDist]
   have := congrArg (fun n : Nat => (n : Int)) h
   simpa using this
+
+/-- **the flag `exact` of the stream-distance op is derived for D8 links on 3 × 4 cells**: if the two cells
+are at most one row and one column apart and the cell size is 3 by 4 (either sign), the squared step length
+is one of 0, 9, 16, 25 and the step is exact - no per-case evaluation needed on such rasters. -/
+theorem cellDist_exact_d8 (ncol : Nat) (xres yres : Int) (i j : Nat)
+    (hr : (Int.ofNat (j / ncol) - Int.ofNat (i / ncol)).natAbs ≤ 1)
+    (hc : (Int.ofNat (j % ncol) - Int.ofNat (i % ncol)).natAbs ≤ 1)
+    (hx : xres = 3 ∨ xres = -3) (hy : yres = 4 ∨ yres = -4) :
+    cellDistExact ncol xres yres i j = true := by
+  unfold cellDistExact cellDist2
+  generalize (Int.ofNat (j / ncol) - Int.ofNat (i / ncol)).natAbs = a at hr
+  generalize (Int.ofNat (j % ncol) - Int.ofNat (i % ncol)).natAbs = b at hc
+  have ha : a = 0 ∨ a = 1 := by omega
+  have hb : b = 0 ∨ b = 1 := by omega
+  rcases ha with rfl | rfl <;> rcases hb with rfl | rfl <;> rcases hx with rfl | rfl <;>
+    rcases hy with rfl | rfl <;> decide
 
 theorem stream_distance_rec (ds : Array Nat) (seq : List Nat) (mask : Option (Array Bool))
     (step : Nat → Nat → Int) (htopo : Topo ds seq) (hb : ∀ i ∈ seq, i < ds.size) (i : Nat) (hi : i ∈ seq) :
@@ -635,6 +654,118 @@ theorem smooth_rivlen_total (ds usMain : Array Nat) (rivlen : Array Rat) (minLen
     (fun i hi => ⟨fun i' => rivSlice_nodup ds usMain _ i' i (hnd i (List.mem_range.1 hi)),
       fun k hk => hb i (List.mem_range.1 hi) k ((inRivWindow_iff ds usMain _ i k).1 hk)⟩)
 
+/-! ## fourth stage: the window hypotheses derived from `Topo` + well-formedness
+
+`usMainOK_c14 ds usMain` (executable, the driver's `usmain_ok`): every entry of `idxs_us_main` is the
+missing value or an inflow cell of its index. -/
+
+/-- **the cells of `core._window` are pairwise distinct and in range.** For every network, every
+downstream-first order whose cells are in range, every well-formed main-stem array, every cell `i` of
+the order, every half-width `n` and every stream-order restriction: the window of `i` has no repeated
+cell and every cell of it is an index of the network. (Downstream part: each step lowers the distance to
+the pit by one; upstream part: each step up the main stem raises it by one; so all distances differ.) -/
+theorem window_nodup (ds usMain : Array Nat) (seq : List Nat) (strord : Option (Array Int)) (n i : Nat)
+    (htopo : Topo ds seq) (hb : ∀ i ∈ seq, i < ds.size) (hus : usMainOK_c14 ds usMain = true)
+    (hi : i ∈ seq) :
+    (window ds usMain strord n i).Nodup ∧ ∀ k ∈ window ds usMain strord n i, k < ds.size :=
+  window_nodup_inrange_c14 ds usMain seq strord n i htopo hb hus hi
+
+/-- the same for the iterate-based oracle `windowSpec` over which `moving_average_def` /
+`moving_median_def` state the result: every cell of the order is averaged over pairwise distinct cells
+of the network, each counted once. (Those two theorems carry no per-case window hypothesis.) -/
+theorem window_oracle_nodup (ds usMain : Array Nat) (seq : List Nat) (strord : Option (Array Int)) (n i : Nat)
+    (htopo : Topo ds seq) (hb : ∀ i ∈ seq, i < ds.size) (hus : usMainOK_c14 ds usMain = true)
+    (hi : i ∈ seq) :
+    (windowSpec ds usMain strord n i).Nodup ∧ ∀ k ∈ windowSpec ds usMain strord n i, k < ds.size := by
+  rw [← window_eq_oracle]
+  exact window_nodup ds usMain seq strord n i htopo hb hus hi
+
+/-- an index of the network that the order does not hold, when the order holds every cell of the
+network: the cell lies outside the network and its window is the cell alone -/
+theorem window_outside (ds usMain : Array Nat) (seq : List Nat) (strord : Option (Array Int)) (n i : Nat)
+    (htopo : Topo ds seq) (hus : usMainOK_c14 ds usMain = true)
+    (hcov : ∀ c, isValid ds c = true → c ∈ seq) (hi : i < ds.size) (hns : i ∉ seq) :
+    window ds usMain strord n i = [i] :=
+  window_outside_c14 ds usMain seq strord n i htopo hus hcov hi hns
+
+/-- **the model of `core.main_upstream` returns a well-formed main-stem array on every input** (any
+network, any upstream-area field, any threshold): the hypothesis `usMainOK_c14` of the window theorems
+holds by construction for the main-stem array the library computes. -/
+theorem main_upstream_ok (ds : Array Nat) (uparea : Array Int) (upaMin : Int) :
+    usMainOK_c14 ds (mainUpstream ds uparea upaMin) = true :=
+  mainUpstream_ok_c14 ds uparea upaMin
+
+/-- **conservation of the total length, window hypothesis discharged** (`smooth_rivlen_total` took
+duplicate-free in-range windows as a per-case hypothesis). For every network, every downstream-first
+order in range that holds every cell of the network, every well-formed main-stem array and every length
+field of the size of the network: `Σ_j rivlen_out[j] = Σ_j rivlen[j]` exactly. -/
+theorem smooth_rivlen_total_topo (ds usMain : Array Nat) (seq : List Nat) (rivlen : Array Rat) (minLen : Rat)
+    (maxWindow : Nat) (nd : Rat) (htopo : Topo ds seq) (hb : ∀ i ∈ seq, i < ds.size)
+    (hus : usMainOK_c14 ds usMain = true) (hcov : ∀ c, isValid ds c = true → c ∈ seq)
+    (hsz : rivlen.size = ds.size) :
+    totalLen (smoothRivlenModel ds usMain rivlen minLen maxWindow nd).1 = totalLen rivlen := by
+  refine smooth_rivlen_total ds usMain rivlen minLen maxWindow nd (fun idx0 h0 => ?_) (fun idx0 h0 k hk => ?_)
+  · by_cases hs : idx0 ∈ seq
+    · exact (window_nodup ds usMain seq none _ idx0 htopo hb hus hs).1
+    · rw [window_outside ds usMain seq none _ idx0 htopo hus hcov (hsz ▸ h0) hs]; simp
+  · by_cases hs : idx0 ∈ seq
+    · rw [hsz]; exact (window_nodup ds usMain seq none _ idx0 htopo hb hus hs).2 k hk
+    · rw [window_outside ds usMain seq none _ idx0 htopo hus hcov (hsz ▸ h0) hs] at hk
+      simp only [List.mem_singleton] at hk
+      rw [hk]; exact h0
+
+/-- variant without the covering hypothesis: it suffices that the cells the order does not hold carry
+no length (whatever their windows look like - e.g. cells on a loop outside the order). -/
+theorem smooth_rivlen_total_seq (ds usMain : Array Nat) (seq : List Nat) (rivlen : Array Rat) (minLen : Rat)
+    (maxWindow : Nat) (nd : Rat) (htopo : Topo ds seq) (hb : ∀ i ∈ seq, i < ds.size)
+    (hus : usMainOK_c14 ds usMain = true) (hsz : rivlen.size = ds.size)
+    (hout : ∀ idx0, idx0 < ds.size → idx0 ∉ seq → rivlen[idx0]! = nd) :
+    totalLen (smoothRivlenModel ds usMain rivlen minLen maxWindow nd).1 = totalLen rivlen := by
+  unfold smoothRivlenModel
+  refine smoothFold_total_nd_c14 ds usMain nd minLen (maxWindow / 2) _ (rivlen, true) (fun i hi => ?_)
+  have hi' : i < ds.size := hsz ▸ List.mem_range.1 hi
+  by_cases hs : i ∈ seq
+  · obtain ⟨h1, h2⟩ := window_nodup ds usMain seq none (maxWindow / 2) i htopo hb hus hs
+    exact Or.inr ⟨fun i' => rivSlice_nodup ds usMain _ i' i h1,
+      fun k hk => by
+        show k < rivlen.size
+        rw [hsz]; exact h2 k ((inRivWindow_iff ds usMain _ i k).1 hk)⟩
+  · exact Or.inl (hout i hi' hs)
+
+/-- **the same with every hypothesis in the executable form the driver reports per case** (`topo` =
+`isTopo`, `cover` = `coversNet_c14`, `usmain_ok` = `usMainOK_c14`; `isTopo` is sound by C03): whenever
+the three flags are 1 and the field has the size of the network, the total length is conserved. -/
+theorem smooth_rivlen_total_checked (ds usMain : Array Nat) (seq : List Nat) (rivlen : Array Rat) (minLen : Rat)
+    (maxWindow : Nat) (nd : Rat) (htopo : isTopo ds seq = true) (hcov : coversNet_c14 ds seq = true)
+    (hus : usMainOK_c14 ds usMain = true) (hsz : rivlen.size = ds.size) :
+    totalLen (smoothRivlenModel ds usMain rivlen minLen maxWindow nd).1 = totalLen rivlen :=
+  smooth_rivlen_total_topo ds usMain seq rivlen minLen maxWindow nd (isTopo_sound' ds seq htopo).1
+    (isTopo_sound' ds seq htopo).2 hus (coversNet_sound_c14 ds seq hcov) hsz
+
+/-- the flag `nodup` of the driver op (`smooth_rivlen_total`'s old per-case hypothesis) is implied by the
+three structural flags: windows of ALL indices of the network are duplicate-free and in range -/
+theorem window_nodup_checked (ds usMain : Array Nat) (seq : List Nat) (strord : Option (Array Int)) (n : Nat)
+    (htopo : isTopo ds seq = true) (hcov : coversNet_c14 ds seq = true)
+    (hus : usMainOK_c14 ds usMain = true) (i : Nat) (hi : i < ds.size) :
+    (window ds usMain strord n i).Nodup ∧ ∀ k ∈ window ds usMain strord n i, k < ds.size := by
+  obtain ⟨ht, hb⟩ := isTopo_sound' ds seq htopo
+  by_cases hs : i ∈ seq
+  · exact window_nodup ds usMain seq strord n i ht hb hus hs
+  · rw [window_outside ds usMain seq strord n i ht hus (coversNet_sound_c14 ds seq hcov) hi hs]
+    exact ⟨by simp, fun k hk => by simp only [List.mem_singleton] at hk; rw [hk]; exact hi⟩
+
+/-! ## fill 'down' is monotone in the field -/
+
+/-- **monotonicity of fill 'down' (all merge rules).** Two fields with the same empty cells and
+`data ≤ data'` at every cell holding a value are filled to arrays with `out ≤ out'` at every index
+(cells that stay empty show the nodata value in both). Used for the river slope in `C14_riv`. -/
+theorem fill_down_mono (ds : Array Nat) (seq : List Nat) (data data' : Array Int) (nd : Int) (how : Nat)
+    (htopo : Topo ds seq) (hb : ∀ i ∈ seq, i < data.size) (hsz : data'.size = data.size)
+    (hpat : ∀ j, j < data.size → (data[j]! = nd ↔ data'[j]! = nd))
+    (hle : ∀ j, j < data.size → data[j]! ≠ nd → data[j]! ≤ data'[j]!) (j : Nat) (hj : j < data.size) :
+    (fillDownModel ds seq data nd how)[j]! ≤ (fillDownModel ds seq data' nd how)[j]! :=
+  fillDownModel_mono_c14 ds seq data data' nd how htopo hb hsz hpat hle j hj
+
 /-! ## non-vacuity: one concrete network meets every hypothesis and the conclusions are non-trivial
 
 network: 4 → 2 → 1 → 0 (pit), 3 → 1 (confluence at 1), cell 5 missing; main stem 0 ← 1 ← 2 ← 4 -/
@@ -754,5 +885,46 @@ example : fillDownSpec dsX #[-1, -1, -1, 4, 9, -1] (-1) 2 = #[13, 13, 9, 4, 9, -
     fillDownSpec dsX #[-1, -1, -1, 4, 9, -1] (-1) 1 = #[4, 4, 9, 4, 9, -1] ∧
     fillDownSpec dsX #[-1, -1, -1, 4, 9, -1] (-1) 0 = #[9, 9, 9, 4, 9, -1] := by decide +kernel
 example : feeders_c14 dsX #[-1, -1, -1, 4, 9, -1] (-1) 0 (List.range 6) = [3, 4] := by decide +kernel
+
+-- fourth stage: the window hypotheses are derived. `usX` is well formed (and is what the model of
+-- `main_upstream` returns for the upstream cell counts); the windows are duplicate-free and in range
+example : usMainOK_c14 dsX usX = true := by decide
+example : mainUpstream dsX #[5, 4, 2, 1, 1, 0] 0 = usX := by decide +kernel
+example : isTopo dsX seqX = true := by decide +kernel
+example : (window dsX usX none 2 1).Nodup ∧ ∀ k ∈ window dsX usX none 2 1, k < dsX.size :=
+  window_nodup dsX usX seqX none 2 1 topoX boundX (by decide) (by decide)
+example : window dsX usX none 2 1 = [4, 2, 1, 0] ∧ window dsX usX none 2 5 = [5] := by decide
+example : window dsX usX none 3 5 = [5] :=
+  window_outside dsX usX seqX none 3 5 topoX (by decide) (coversNet_sound_c14 _ _ (by decide +kernel))
+    (by decide) (by decide)
+-- conservation without any window hypothesis (compare the example for `smooth_rivlen_total` above)
+example : totalLen (smoothRivlenModel dsX usX #[6, 1, 5, -9999, 2, -9999] 3 6 (-9999)).1 =
+    totalLen #[6, 1, 5, -9999, 2, -9999] :=
+  smooth_rivlen_total_checked dsX usX seqX _ 3 6 (-9999) (by decide +kernel) (by decide +kernel) (by decide)
+    (by decide)
+-- an order that misses the branch cell 3 (no cover): the cell holds no length, conservation still follows
+example : totalLen (smoothRivlenModel dsX usX #[6, 1, 5, -9999, 2, -9999] 3 6 (-9999)).1 =
+    totalLen #[6, 1, 5, -9999, 2, -9999] :=
+  smooth_rivlen_total_seq dsX usX [0, 1, 2, 4] _ 3 6 (-9999)
+    (by
+      have h1 : Topo dsX ([] ++ [0]) := Topo.snoc Topo.nil (by simp) (Or.inl (by decide))
+      have h2 : Topo dsX ([0] ++ [1]) := Topo.snoc h1 (by simp) (Or.inr (by decide))
+      have h3 : Topo dsX ([0, 1] ++ [2]) := Topo.snoc h2 (by simp) (Or.inr (by decide))
+      exact Topo.snoc h3 (by simp) (Or.inr (by decide)))
+    (by decide) (by decide) (by decide) (by decide +kernel)
+-- without a downstream-first order the statement is false: on the 2-cycle 0 <-> 1 (main stem 0 <-> 1) the
+-- window of 0 repeats cells
+example : usMainOK_c14 #[1, 0] #[1, 0] = true ∧ window #[1, 0] #[1, 0] none 2 0 = [0, 1, 0, 1, 0] := by decide
+-- fill 'down' is monotone: raising the two values raises every filled cell (max rule)
+example : fillDownModel dsX seqX #[-1, -1, -1, 4, 9, -1] (-1) 0 = #[9, 9, 9, 4, 9, -1] ∧
+    fillDownModel dsX seqX #[-1, -1, -1, 12, 10, -1] (-1) 0 = #[12, 12, 10, 12, 10, -1] := by decide +kernel
+example : (fillDownModel dsX seqX #[-1, -1, -1, 4, 9, -1] (-1) 0)[1]! ≤
+    (fillDownModel dsX seqX #[-1, -1, -1, 12, 10, -1] (-1) 0)[1]! :=
+  fill_down_mono dsX seqX #[-1, -1, -1, 4, 9, -1] #[-1, -1, -1, 12, 10, -1] (-1) 0 topoX boundX (by decide)
+    (by decide) (by decide) 1 (by decide)
+
+-- D8 steps on 3 x 4 cells are exact: cell 3 -> cell 0 of a 2-column raster is the diagonal of length 5
+example : cellDistExact 2 3 (-4) 3 0 = true ∧ cellDist 2 3 (-4) 3 0 = 5 :=
+  ⟨cellDist_exact_d8 2 3 (-4) 3 0 (by decide) (by decide) (Or.inl rfl) (Or.inr rfl), by decide⟩
 
 end Pf.C14
